@@ -1,10 +1,12 @@
+\* classification of every endpoint class on the design as it is (CASE lines)
 SPECIFICATION Spec
 CONSTANTS
   NEvents = 2
   Clients = {"c1"}
   MaxReq = 2
   Endpoints = {"pause", "continue", "state", "now", "tick", "component", "field", "buffers", "progress"}
-  PauseWaits = FALSE
+  PauseWaits = TRUE
+  HoldCtl = TRUE
   Atomic = FALSE
   Record = FALSE
 INVARIANT TypeOK
@@ -14,4 +16,6 @@ INVARIANT WindowOK
 INVARIANT RunningOK
 INVARIANT InspectUnderFlag
 INVARIANT DispatchLockOK
+INVARIANT InspectionHeld
+INVARIANT NoConcurrentAccessUnderPause
 ACTION_CONSTRAINT DetectAct
